@@ -1,9 +1,10 @@
 import RtenVerif.Driver.Util
 import RtenVerif.Model.Overlap
 import RtenVerif.Model.Layout
+import RtenVerif.Model.OverlapCtor
 
 namespace RtenVerif.Driver.C08
-open RtenVerif.Driver RtenVerif.Overlap RtenVerif.Layout RtenVerif.Arr
+open RtenVerif.Driver RtenVerif.Overlap RtenVerif.Layout RtenVerif.Arr RtenVerif.OverlapCtor
 
 def parseDim (w : String) : Option (Nat × Nat) :=
   match w.splitOn "," with
@@ -52,12 +53,68 @@ def runChain : List String → View → String
     | some (.error _) => "err"
     | some (.ok v') => runChain ops v'
 
+/-! `mk <ctor> <kind> <dataLen> <size,stride …> | <conv> | …`: explicit construction over a
+storage kind followed by storage conversions (`Model/OverlapCtor.lean`, `codeTable`, fixed
+`into_owned`).  Answer `rej`, or `ok <kind> <size,stride …>` for the final tensor.
+`cov <method> …`: every listed method must be classified in `apiTable`. -/
+
+def parseKind : String → Option Kind
+  | "vec" => some .vec | "view" => some .view | "viewmut" => some .viewMut
+  | "cowb" => some .cowB | "cowo" => some .cowO | "arc" => some .arc | _ => none
+
+def showKind : Kind → String
+  | .vec => "vec" | .view => "view" | .viewMut => "viewmut"
+  | .cowB => "cowb" | .cowO => "cowo" | .arc => "arc"
+
+def parseCtor : String → Option Ctor
+  | "fdws" | "fdws_nd" => some .fdws | "fsws" | "fsws_nd" => some .fsws
+  | "fsl" | "fsl_nd" => some .fsl | _ => none
+
+def parseConv : String → Option Conv
+  | "into_cow" => some .intoCow | "into_arc" => some .intoArc | "into_owned" => some .intoOwned
+  | "to_tensor" => some .toTensor | "as_cow" => some .asCow | "clone" => some .clone
+  | "to_contiguous" => some .toContiguous | "reshaped" => some .reshapedSame
+  | "into_shape" => some .intoShapeSame | "into_contiguous" => some .intoContiguous
+  | _ => none
+
+def runConvs : List String → T → String
+  | [], t =>
+    let ds := joinWith " " (t.dims.map (fun d => s!"{d.1},{d.2}"))
+    s!"ok {showKind t.kind} {ds}"
+  | c :: cs, t =>
+    match parseConv c.trimAscii.toString with
+    | none => "bad-request"
+    | some cv =>
+      match convert true cv t with
+      | none => "na"
+      | some t' => runConvs cs t'
+
+def handleMk (line : String) : String :=
+  match (line.drop 3).toString.splitOn " | " with
+  | head :: convs =>
+    match words head with
+    | c :: k :: len :: ds =>
+      match parseCtor c, parseKind k, len.toNat?, ds.mapM parseDim with
+      | some c, some k, some len, some dims =>
+        match construct codeTable c k dims len with
+        | none => "rej"
+        | some t => runConvs convs t
+      | _, _, _, _ => "bad-request"
+    | _ => "bad-request"
+  | [] => "bad-request"
+
+def handleCov (names : List String) : String :=
+  let unknown := names.filter (fun n => !(apiTable.any (fun e => e.1 == n)))
+  if unknown.isEmpty then "all-classified" else "unclassified: " ++ joinWith "," unknown
+
 def handle (line : String) : String :=
   match words line with
   | "ov" :: ds =>
     match ds.mapM parseDim with
     | some dims => s!"overlap={b01 (mayOverlap dims)} contig={b01 (isContiguous dims)}"
     | none => "bad-request"
+  | "mk" :: _ => handleMk line
+  | "cov" :: names => handleCov names
   | "dv" :: _ =>
     match (line.drop 3).toString.splitOn " | " with
     | sh :: ops =>
